@@ -27,6 +27,11 @@ Definition str_in (x : string) (l : list string) : bool := existsb (String.eqb x
 (* roles that only reflect the ORDER of the output tarball's members *)
 Definition order_only_roles : list string := ["tarball-member-order"; "output-tarball"].
 
+(* roles that differ when an output tarball written over a LONGER earlier file keeps that file's tail: the length and
+   the hash of the whole file — while the index, the member set and order, and the first bytes (as many as the fresh
+   file has: role output-tarball-first-bytes) are those of the fresh build *)
+Definition tail_only_roles : list string := ["output-tarball-length"; "output-tarball"].
+
 Definition check_build (c : build_case) : list string :=
   if b_failed c then [("viol:build-fails/" ++ b_dim c)%string]
   else
@@ -52,6 +57,8 @@ Definition check_build (c : build_case) : list string :=
     | r :: rest =>
         if forallb (fun x => str_in x order_only_roles) (r :: rest)
         then ["viol:digest-differs/output-tarball-member-order"]
+        else if forallb (fun x => str_in x tail_only_roles) (r :: rest) && str_in "output-tarball-length" (r :: rest)
+        then ["viol:digest-differs/output-tarball-keeps-the-tail-of-an-earlier-file"]
         else [("viol:digest-differs/" ++ b_dim c ++ ";first-differing-artifact=" ++ r)%string]
     end.
 
